@@ -4,6 +4,8 @@ import Iota.Gen.Pow
 import Iota.Gen.Curl
 import Iota.Gen.Bech32
 import Iota.Gen.Ed
+import Iota.Gen.Merkle
+import Iota.Driver.C15
 
 /-!
 Translation validation by execution: these ops run the definitions that cmd/extract GENERATED from the Go source
@@ -67,7 +69,45 @@ def bechErr (e : String × Option (BitVec 64)) : String :=
     | "base32.ErrInvalidLength" => "b32length" | "base32.ErrNonZeroPadding" => "padding" | other => other
   s!"err {kind} " ++ (match e.2 with | some o => toString o.toInt | none => "-")
 
+/-- the generated `Hasher.Hash` on a list of leaves of the model's type: `hash_sum` = the named hash function on the
+code's bytes, a failing leaf = (no bytes, the error number as its name), fuel = number of leaves + 1 -/
+def merkleGen (H : List UInt8 → List UInt8) (leaves : List (Except Nat (List UInt8))) : String :=
+  let hs : List (BitVec 8) → List (BitVec 8) := fun x => bvOfBytes (H (bytesOfBv x))
+  let data : List (List (BitVec 8) × Option String) := leaves.map fun
+    | .ok b => (bvOfBytes b, none)
+    | .error k => ([], some (toString k))
+  match Gen.Merkle.code.Hasher_Hash hs (leaves.length + 1) data with
+  | none => "panic"
+  | some (r, none) => s!"ok {hexOfBytes (bytesOfBv r)}"
+  | some (_, some e) => s!"err {e}"
+
 def ops : List (String × Handler) := [
+  -- pkg/merkle: the four ops of the C15 stream, answered by the generated code (mirrored by the harness)
+  ("gen.merkle.hash", fun
+    | [hn, ls] => match C15.hashByName hn, (if ls == "-" then some [] else (ls.splitOn ";").mapM C15.parseLeaf) with
+      | some H, some leaves => merkleGen H leaves
+      | _, _ => badOp
+    | _ => badOp),
+  ("gen.merkle.gen", fun
+    | [hn, n, seed, len, errAt] => match C15.hashByName hn, n.toNat?, seed.toNat?, len.toNat?, errAt.toInt? with
+      | some H, some n, some seed, some len, some errAt =>
+        merkleGen H ((List.range n).map fun (i : Nat) =>
+          if Int.ofNat i == errAt then .error i else .ok (C15.genLeaf seed i (len + i % 3)))
+      | _, _, _, _, _ => badOp
+    | _ => badOp),
+  ("gen.merkle.generrs", fun
+    | [hn, n, seed, len, errs] => match C15.hashByName hn, n.toNat?, seed.toNat?, len.toNat? with
+      | some H, some n, some seed, some len =>
+        let bad := (errs.splitOn ",").filterMap String.toNat?
+        merkleGen H ((List.range n).map fun (i : Nat) =>
+          if bad.contains i then .error i else .ok (C15.genLeaf seed i (len + i % 3)))
+      | _, _, _, _ => badOp
+    | _ => badOp),
+  ("gen.merkle.empty", fun
+    | [hn] => match C15.hashByName hn with
+      | some H => hexOfBytes (bytesOfBv (Gen.Merkle.code.Hasher_EmptyRoot fun x => bvOfBytes (H (bytesOfBv x))))
+      | none => badOp
+    | _ => badOp),
   ("gen.b1t6.enc", fun
     | [n, h] => match n.toNat?, bytesOfHex h with
       | some n, some src => match Gen.B1T6.b1t6.Encode (List.replicate n 7#8) (bvOfBytes src) with
